@@ -33,6 +33,7 @@ func init() {
 			{Name: "recv-deadline-while-a-send-waits", Mode: "enum", Bound: b, Reset: kit.ResetGlobals, Body: recvWhileSendWaits,
 				NeedCounters: []string{"recv-timeout-exact-beside-waiting-send"}},
 			{Name: "two-senders-one-slot-each-with-the-deadline", Mode: "sched", Bound: b + 1, Reset: kit.ResetGlobals, Body: twoSendersOneSlot},
+			{Name: "best-effort-switched-during-a-send", Mode: "sched", Bound: b + 1, Reset: kit.ResetGlobals, Body: bestEffortSwitched},
 			{Name: "fail-no-peers", Mode: "enum", Bound: b, Reset: kit.ResetGlobals, Body: failNoPeers,
 				NeedCounters: []string{"nopeers-at-call", "nopeers-when-last-peer-leaves", "one-of-two-peers-leaves", "peers-come-and-go"}},
 		}
@@ -412,6 +413,63 @@ func recvWhileSendWaits() {
 	kit.Must("Close", func() { _ = x.S.Close() })
 }
 
+// bestEffortSwitched: the queue is full and the peer takes nothing; a Send with send deadline d
+// runs while another thread switches BestEffort (on -> off or off -> on).  Whichever value the Send
+// goes by, the outcome is one of the two the modes allow: nil at the instant of the call (dropped,
+// never blocked), or ErrSendTimeout exactly d after the call - not a success reported after waiting
+// out the deadline, and not a timeout before the deadline.
+func bestEffortSwitched() {
+	var ks []*kinds.Kind
+	for _, k := range kinds.All {
+		if k.CanSend {
+			ks = append(ks, k)
+		}
+	}
+	k := ks[kit.ChooseFree(len(ks))]
+	b0 := kit.ChooseFree(2) == 1
+	d := 50 * time.Millisecond
+	x := k.OpenQ("c18b", true, 1)
+	x.Quiet()
+	_ = x.S.SetOption(mangos.OptionWriteQLen, 1)
+	if err := x.S.SetOption(mangos.OptionBestEffort, false); err != nil {
+		return
+	}
+	blocked, _ := blockSend(x, "fill")
+	if blocked == nil {
+		return
+	}
+	if err := x.S.SetOption(mangos.OptionSendDeadline, d); err != nil {
+		return
+	}
+	_ = x.S.SetOption(mangos.OptionBestEffort, b0)
+	x.PrepSend()
+	m := x.Msg("switched")
+	t0 := kit.Now()
+	c := kit.Start("Send", func() (interface{}, error) { return nil, x.S.SendMsg(m) })
+	o := kit.Start("SetOption", func() (interface{}, error) { return nil, x.S.SetOption(mangos.OptionBestEffort, !b0) })
+	kit.Quiesce()
+	if !o.Done() || o.Err != nil {
+		kit.Failf("option-call-held-up:"+k.Name, "%s: SetOption(BestEffort,%v) beside a Send: done=%v %s", k.Name, !b0, o.Done(), kit.ErrName(o.Err))
+	}
+	kit.Sleep(d)
+	kit.Quiesce()
+	switch {
+	case !c.Done():
+		kit.Failf("send-deadline-ignored:"+k.Name, "%s: Send (deadline %v, BestEffort %v -> %v during the call) is still waiting %v after the call", k.Name, d, b0, !b0, kit.Now()-t0)
+	case c.Err == nil && c.T1 != c.T0:
+		kit.Failf("best-effort-blocked:"+k.Name, "%s: Send (deadline %v, BestEffort %v -> %v during the call) returned nil after %v: a best-effort send does not wait, a send with a deadline that waited it out reports the timeout", k.Name, d, b0, !b0, c.T1-c.T0)
+	case c.Err == mangos.ErrSendTimeout && c.T1-c.T0 != d:
+		kit.Failf("send-deadline-early:"+k.Name, "%s: Send (deadline %v, BestEffort %v -> %v during the call) returned ErrSendTimeout after %v", k.Name, d, b0, !b0, c.T1-c.T0)
+	case c.Err != nil && c.Err != mangos.ErrSendTimeout:
+		kit.Failf("send-deadline-result:"+k.Name, "%s: Send returned %s", k.Name, kit.ErrName(c.Err))
+	}
+	if c.Err != nil {
+		m.Free()
+	}
+	kit.Observe("%s %v %s %v", k.Name, b0, kit.ErrName(c.Err), c.T1-c.T0)
+	kit.Must("Close", func() { _ = x.S.Close() })
+}
+
 // twoSendersOneSlot: the peer takes nothing and exactly one queue slot is free; two threads call
 // Send at the same moment with a send deadline d.  Under every interleaving each call returns by
 // its deadline: nil for the one that got the slot, ErrSendTimeout - exactly d after the call - for
@@ -520,11 +578,22 @@ func failNoPeers() {
 		if c == nil {
 			return
 		}
+		// a second Send waits behind the first
+		two := k.Name != "req" && k.Name != "surveyor" // (there a new Send replaces the one that waits)
+		var c2 *kit.Call
+		if two {
+			x.PrepSend()
+			c2 = kit.Start("Send:second", func() (interface{}, error) { return nil, x.Send("np-second") })
+			kit.Quiesce()
+		}
 		t := kit.Now()
 		x.P.DropNow()
 		kit.Quiesce()
 		if !c.Done() || c.Err != mangos.ErrNoPeers || c.T1 != t {
 			kit.Failf("nopeers-send-leave:"+k.Name, "%s: the last peer left while Send waited: done=%v %s after %v, want ErrNoPeers at that instant", k.Name, c.Done(), kit.ErrName(c.Err), c.T1-t)
+		}
+		if two && (!c2.Done() || c2.Err != mangos.ErrNoPeers || c2.T1 != t) {
+			kit.Failf("nopeers-send-leave:"+k.Name, "%s: the last peer left while two Sends waited: the second: done=%v %s, want ErrNoPeers at that instant as well", k.Name, c2.Done(), kit.ErrName(c2.Err))
 		}
 		kit.Count("nopeers-when-last-peer-leaves")
 	case 2: // the last peer leaves while a Recv waits
